@@ -7,7 +7,7 @@
 //!   impl_vs_model : long-lived result ≠ the model's result evaluated on a fresh reader (purity / state),
 //!   impl_vs_spec  : the path identities of the property (range = ref converted, range_at(n) = range(name_n),
 //!                   worksheets() entries = per-name ranges, unknown sheet = error, auto = format reader).
-use calamine::{open_workbook_auto_from_rs, Data, HeaderRow, Range, Reader, ReaderRef, Sheets};
+use calamine::{open_workbook_auto, open_workbook_auto_from_rs, Data, HeaderRow, Ods, Range, Reader, ReaderRef, Sheets, Xls, Xlsb, Xlsx};
 use std::io::Cursor;
 use verif_harness::wb::{self, AnyBook, Fmt};
 use verif_harness::{driver::Driver, guarded, hex, report::Report, rng::Rng, Args};
@@ -118,6 +118,94 @@ fn err_class<E: std::fmt::Debug>(e: &E) -> String {
     }
     let end = s.find(|c: char| !(c.is_alphanumeric() || c == '_')).unwrap_or(s.len());
     format!("err:{}", &s[..end])
+}
+
+fn kind_name<RS>(s: &Sheets<RS>) -> &'static str {
+    match s {
+        Sheets::Xls(_) => "xls",
+        Sheets::Xlsx(_) => "xlsx",
+        Sheets::Xlsb(_) => "xlsb",
+        Sheets::Ods(_) => "ods",
+    }
+}
+
+fn auto_err(e: &calamine::Error) -> String {
+    match e {
+        calamine::Error::Xls(_) => "err:xls".into(),
+        calamine::Error::Xlsx(_) => "err:xlsx".into(),
+        calamine::Error::Xlsb(_) => "err:xlsb".into(),
+        calamine::Error::Ods(_) => "err:ods".into(),
+        calamine::Error::Msg("Cannot detect file format") => "cannot".into(),
+        other => format!("err:other:{other:?}"),
+    }
+}
+
+/// which of the four readers open these bytes (the input of `Model/Auto.lean`), measured on the real readers
+fn accepts(bytes: &[u8]) -> String {
+    let c = || Cursor::new(bytes.to_vec());
+    let b = |ok: bool| if ok { '1' } else { '0' };
+    let a = [
+        guarded(|| Xls::new(c()).is_ok()).unwrap_or(false),
+        guarded(|| Xlsx::new(c()).is_ok()).unwrap_or(false),
+        guarded(|| Xlsb::new(c()).is_ok()).unwrap_or(false),
+        guarded(|| Ods::new(c()).is_ok()).unwrap_or(false),
+    ];
+    a.iter().map(|x| b(*x)).collect()
+}
+
+/// auto-detection on `bytes` (a workbook of format `fmt`, or `None` for something that is no workbook):
+/// implementation vs `Model/Auto.lean` given the measured acceptance vector, and vs the property's clause
+/// ("opens what the format's own reader opens, with that reader")
+fn run_auto(bytes: &[u8], fmt: Option<Fmt>, with_path: bool, drv: &mut Driver, rep: &mut Report) -> Vec<(String, String, String, String, String)> {
+    let mut fails = vec![];
+    let acc = accepts(bytes);
+    rep.count(&format!("auto.accepts.{acc}"));
+    let got = match guarded(|| open_workbook_auto_from_rs(Cursor::new(bytes.to_vec()))) {
+        Ok(Ok(s)) => kind_name(&s).to_string(),
+        Ok(Err(e)) => auto_err(&e),
+        Err(p) => format!("panic:{p}"),
+    };
+    let model = drv.ask(&format!("autors {acc}"));
+    if got != model {
+        fails.push(("impl_vs_model".into(), "auto:from-rs".into(), got.clone(), model.clone(), format!("accepts={acc}")));
+    }
+    if let Some(f) = fmt {
+        let own = acc.as_bytes()[match f { Fmt::Xls => 0, Fmt::Xlsx => 1, Fmt::Xlsb => 2, Fmt::Ods => 3 }] == b'1';
+        // the property: what the format's own reader opens, auto-detection opens with that reader
+        let want = if own { f.name().to_string() } else { got.clone() };
+        if got != want {
+            // an earlier reader of the trial order accepting a foreign file is the implementation's fault as well
+            fails.push(("impl_vs_spec".into(), format!("auto:{}:not-the-format-reader", f.name()), got.clone(), model.clone(), format!("{want} (accepts={acc})")));
+        }
+    } else if acc == "0000" && got != "cannot" {
+        fails.push(("impl_vs_spec".into(), "auto:no-reader-opens-it".into(), got.clone(), model.clone(), "cannot".into()));
+    }
+    if with_path {
+        let dir = std::env::temp_dir().join(format!("verif_c07_{}", std::process::id()));
+        let _ = std::fs::create_dir_all(&dir);
+        let own_ext = fmt.map(|f| f.name()).unwrap_or("bin");
+        for ext in [own_ext, "xls", "xla", "xlsx", "xlsm", "xlam", "xlsb", "ods", "", "XLSX", "Ods", "txt", "xlsx.bak"] {
+            let path = if ext.is_empty() { dir.join("book") } else { dir.join(format!("book.{ext}")) };
+            if std::fs::write(&path, bytes).is_err() {
+                continue;
+            }
+            let got = match guarded(|| open_workbook_auto(&path)) {
+                Ok(Ok(s)) => kind_name(&s).to_string(),
+                Ok(Err(e)) => auto_err(&e),
+                Err(p) => format!("panic:{p}"),
+            };
+            let _ = std::fs::remove_file(&path);
+            // `Path::extension` of "book.xlsx.bak" is "bak", of "book" is None
+            let e = std::path::Path::new(&path).extension().and_then(|e| e.to_str()).unwrap_or("-").to_string();
+            let model = drv.ask(&format!("autopath {e} {acc}"));
+            rep.count("auto.path-calls");
+            if got != model {
+                fails.push(("impl_vs_model".into(), "auto:from-path".into(), format!("ext={e}: {got}"), model, format!("accepts={acc}")));
+            }
+        }
+        let _ = std::fs::remove_dir(&dir);
+    }
+    fails
 }
 
 fn hdr(h: Option<u32>) -> HeaderRow {
@@ -388,6 +476,32 @@ fn run_case(case: &Case, drv: &mut Driver, rep: &mut Report) -> Vec<(String, Str
             bytes = wrapped;
         } else {
             rep.count(&format!("{}.leading-bytes-rejected-by-format-reader", fmt.name()));
+        }
+    }
+    // which reader auto-detection wraps: implementation vs Model/Auto.lean vs the property's clause, on the file
+    // itself and on damaged / foreign variants of it
+    if case.auto {
+        fails.extend(run_auto(&bytes, Some(fmt), case.seed % 8 == 1, drv, rep));
+        let mut r = Rng::new(case.seed ^ 0xa070);
+        let junk: Vec<u8> = match r.below(5) {
+            0 => vec![],
+            1 => r.bytes(64),
+            2 => bytes[..bytes.len() / 2].to_vec(),
+            3 => {
+                let mut b = bytes.clone();
+                let k = r.below(b.len().min(64) as u64) as usize;
+                b[k] ^= 0xff;
+                b
+            }
+            _ => {
+                let mut b = bytes.clone();
+                b.truncate(b.len().saturating_sub(1 + r.below(40) as usize));
+                b
+            }
+        };
+        fails.extend(run_auto(&junk, None, case.seed % 16 == 1, drv, rep));
+        if !fails.is_empty() {
+            return fails;
         }
     }
     let mut live: AnyBook = if case.auto {
